@@ -46,6 +46,7 @@ from liquid2 import CachingDictLoader
 from liquid2 import CachingFileSystemLoader
 from liquid2 import FileSystemLoader
 from liquid2 import DictLoader
+from liquid2 import Environment
 from liquid2.exceptions import LiquidError
 from liquid2.exceptions import RequiredBlockError
 from liquid2.exceptions import TemplateInheritanceError
@@ -333,6 +334,21 @@ def error_cases() -> Iterator[dict[str, Any]]:  # noqa: PLR0912, PLR0915
             yield _model_case("err-missing", ts, with_blocks=with_blocks)
 
 
+# root parents with render state of their own around and inside their blocks
+IDENTITY_ROOTS = [
+    "{% macro m a %}M{{ a }}{% endmacro %}[{% block a %}{% call m u %}{% endblock %}]{% call m 1 %}",
+    "{% for i in xs %}{% block a %}{% cycle 'x', 'y' %}{% endblock %}{% endfor %}|{% cycle 'x', 'y' %}",
+    "{% increment n %}{% block a %}{% increment n %}{% decrement d %}{% endblock %}{% increment n %}{% decrement d %}",
+    "{% for i in xs limit: 1 %}{{ i }}{% endfor %}{% block a %}{% for i in xs offset: continue %}{{ i }}{% endfor %}{% endblock %}",
+    "{% assign v = u %}{% block a %}{{ v }}{% block b %}{{ v }}{{ u }}{% endblock %}{% endblock %}{{ v }}",
+    "{% for i in xs %}{% block a %}{{ i }}{{ forloop.index }}{% if forloop.last %}!{% endif %}{% endblock %}{% endfor %}",
+    "{% capture c %}{% block a %}A{{ u }}{% endblock %}{% endcapture %}<{{ c }}>{% block b %}B{% endblock %}",
+    "{% with w: u %}{% block a %}{{ w }}{% block b %}{{ w }}{% endblock %}{% endblock %}{% endwith %}",
+    "{% if f %}{% block a %}{% macro k %}K{% endmacro %}{% call k %}{% endblock %}{% endif %}{% block b %}{{ block.super }}b{% endblock %}",
+    "{% liquid\nincrement n\ncycle 'p', 'q'\n%}{% block a %}{% liquid\nincrement n\ncycle 'p', 'q'\n%}{% endblock %}",
+]
+
+
 def nested_cases() -> Iterator[dict[str, Any]]:
     """A small deterministic sample of the nested-chain shape (also in strategy())."""
     data = {"u": "U", "v": 7, "xs": [1, 2], "ys": [3], "f": True, "g": False}
@@ -588,6 +604,9 @@ class C08(Prop):
 
     def enumerate(self, tier: str, disabled: frozenset[str]):
         seed = int(os.environ.get("VERIF_SEED", "1") or "1")
+        for root in IDENTITY_ROOTS:
+            for depth in (1, 2, 3):
+                yield {"kind": "identity", "root": root, "depth": depth, "data": {"xs": [1, 2, 3], "u": "U", "f": True}}
         yield from error_cases()
         yield from nested_cases()
         yield from enum_chain_cases(tier, seed)
@@ -617,7 +636,40 @@ class C08(Prop):
 
     # ------------------------------------------------------------------ oracle
 
+    def _check_identity(self, case: Any) -> Result:
+        """Nothing overrides anything: the page of a chain of empty children is the root parent's own text,
+        with each block replaced by its only definition - i.e. exactly what the root renders by itself,
+        macros, cycles, counters and loop offsets of the root included."""
+        res = Result()
+        res.labels.append("fam:identity")
+        res.nontrivial = True
+        root = case["root"]
+        templates = {"r": root}
+        prev = "r"
+        for k in range(case["depth"]):
+            templates[f"c{k}"] = "{% extends '" + prev + "' %}" + ("{% block zz %}unused{% endblock %}" if k % 2 else "")
+            prev = f"c{k}"
+        outs = {}
+        for lk, loader_cls in (("dict", DictLoader), ("caching", CachingDictLoader)):
+            env = Environment(loader=loader_cls(dict(templates)))
+            for mode in ("sync", "async"):
+                outs[f"{lk}/{mode}/root"] = self._render(env, "r", case["data"], mode)
+                outs[f"{lk}/{mode}/chain"] = self._render(env, prev, case["data"], mode)
+                res.evaluations += 2
+        want = outs["dict/sync/root"]
+        if want[0] != "ok":
+            res.labels.append("identity:root-error")
+            return res
+        bad = sorted(k for k, v in outs.items() if v != want)
+        if bad:
+            res.fail("resolution", "unoverridden-chain-differs-from-root",
+                     f"the root renders {want[1]!r} by itself; {bad[0]} gives {outs[bad[0]]!r} (also {bad[1:]}); "
+                     f"root={root!r} depth={case['depth']}")
+        return res
+
     def check(self, case: Any, disabled: frozenset[str] = frozenset()) -> Result:  # noqa: PLR0912, PLR0915
+        if case["kind"] == "identity":
+            return self._check_identity(case)
         res = Result()
         if case["kind"] == "enum":
             templates = build_chain(case["chain"])
@@ -795,6 +847,8 @@ class C08(Prop):
         return alt[1] if alt[0] == "ok" else None
 
     def sample(self, case: Any) -> Any:
+        if case["kind"] == "identity":
+            return {"fam": "identity", "root": case["root"][:200], "depth": case["depth"]}
         if case["kind"] == "enum":
             templates = build_chain(case["chain"])
         else:
